@@ -53,7 +53,7 @@ func mutateBody(f *Fault, body []byte, enveloped bool) ([]byte, bool) {
 			return body, false
 		}
 		at := f.At % len(body)
-		return append([]byte(nil), body[:at]...), true
+		return append([]byte{}, body[:at]...), true
 	case FaultBitFlip:
 		if len(body) == 0 {
 			return body, false
@@ -140,6 +140,9 @@ func applyRequestFault(sc *Scenario, enc *encodedRequest) {
 		enc.DeclaredCL = int64(n)
 		if f.Kind == FaultCLPlus {
 			enc.BodyErr = io.ErrUnexpectedEOF
+		} else {
+			// a real server hands over exactly the declared number of bytes
+			enc.Body = enc.Body[:n]
 		}
 		return
 	}
